@@ -903,23 +903,39 @@ func c12SignedParse(p *Prog, r *Report, rule string) {
 		if strParam == nil {
 			continue
 		}
-		fromInput := func(v ssa.Value) bool {
-			for i := 0; i < 6 && v != nil; i++ {
-				if v == ssa.Value(strParam) {
-					return true
+		var fromInput func(v ssa.Value) bool
+		seenIn := map[ssa.Value]bool{}
+		fromInput = func(v ssa.Value) bool {
+			if v == nil || seenIn[v] {
+				return false
+			}
+			seenIn[v] = true
+			if v == ssa.Value(strParam) {
+				return true
+			}
+			switch x := v.(type) {
+			case *ssa.Slice:
+				return fromInput(x.X)
+			case *ssa.Phi:
+				for _, e := range x.Edges {
+					if fromInput(e) {
+						return true
+					}
 				}
-				switch x := v.(type) {
-				case *ssa.Slice:
-					v = x.X
-				case *ssa.Phi:
-					for _, e := range x.Edges {
-						if e == ssa.Value(strParam) {
+			case *ssa.Extract:
+				return fromInput(x.Tuple)
+			case *ssa.Call:
+				// pieces cut out of the input by the strings package (Cut, TrimPrefix, Split…)
+				if g := x.Call.StaticCallee(); g != nil && fnPkgPath(g) == "strings" {
+					for _, a := range x.Call.Args {
+						if fromInput(a) {
 							return true
 						}
 					}
-					return false
-				default:
-					return false
+				}
+			case *ssa.UnOp:
+				if ia, ok := x.X.(*ssa.IndexAddr); ok {
+					return fromInput(ia.X)
 				}
 			}
 			return false
